@@ -22,7 +22,7 @@ CLAIMS = {
  'C07': ('proof', 'Allocator identity is ghost state: constructors, copy/move assignment and swap contracts state get_allocator() per propagation trait (configurations main, aprop, aeq, pocs and the other trait combinations in the thorough tier); BLOCK ties every buffer to the current allocator.', '5.7'),
  'C09': ('proof', 'steal_permitted (written from the property) ==> data() is the source\'s old data(), no element operation (ONLY_KINDS(0)), no allocator traffic, source default-state; otherwise element-wise; same-capacity and cross-capacity (pair_lt/pair_gt) move assignment, move construction, swap.', '5.9'),
  'C15': ('proof', 'Iterator protocols as preconditions of the iterator models, asserted at every call site of the extracted code: forward ranges never dereferenced/advanced at or beyond last, range length without truncation, k-th element from k-th position (loop contracts, unbounded); generator constructor: exactly count calls in index order, element k is the k-th value (loop contract, unbounded). Single-pass ranges (append, strong append, assign, range constructor, insert at end): each position dereferenced exactly once and advanced exactly once in order, no stale copy, never at/beyond last, all positions consumed, size accounting - their loops reallocate inside the body and are BOUNDED STAND-INS (3 positions, unwinding assertions), listed under bounded_stand_ins in the evidence and not counted as proved; the range constructor (no loop of its own) is proved unbounded against the bounded contract of append_range.', '5.15'),
- 'C18': ('proof', 'every extracted function whose compiler-evaluated exception specification is noexcept carries the obligation that no exception leaves it (r8); for the move constructor, allocator constructor, operator=(&&), assign(&&), swap, clear and the observers the declared specification (evaluated by the compiler through the noexcept operator) is compared with the README condition in every allocator-trait / element / N==0 configuration, and the documented condition implies !exc on the body; std::allocator, iterator-trait and nested-type facts are not covered.', '5.18'),
+ 'C18': ('proof', 'every extracted function whose compiler-evaluated exception specification is noexcept carries the obligation that no exception leaves it (r8); for the move constructor, the converting move constructor and assign(&&) from another inline capacity, allocator constructor, operator=(&&), assign(&&), swap, clear and the observers the declared specification (evaluated by the compiler through the noexcept operator) is compared with the README condition in every allocator-trait / element / N==0 configuration, and the documented condition implies !exc on the body; std::allocator, iterator-trait and nested-type facts are not covered.', '5.18'),
  'C17': ('proof', 'The header is extracted under -std=c++11/14/17/20/23 by the same compiler front end; per function, identical extracted text (with everything it inlines) shares the C++20 proof, differing text is proved against the SAME contract - same contract under every standard is the statement of the property. GCC and code generation are out of reach.', '5.17'),
  'C08': ('proof', 'configuration class CONSTEVAL (std::is_constant_evaluated () true, nothing throws, the container always owns an allocator block): the extracted constant-evaluation branches are proved against the SAME contracts as the run-time paths (sizes, values, returned positions, growth), with the lifetime/ledger/pointer obligations standing in for the evaluator\'s UB and leak detection, and memcpy/memmove unreachable; the compiler\'s evaluator itself is not modelled; public wrappers and two-container operations are not in the class yet.', '5.8'),
  'C16': ('proof', 'the six relational operators (C++11-17 forms; == also in C++20), non-member size/ssize/empty/data/begin/end/swap/erase under contract: the std algorithms they call are environment summaries that record their arguments and return an uninterpreted element-consistent result, so each contract pins down which algorithm runs on which ranges in which order and how the result is combined - the definition of the std::vector operators; equality of two containers implies equal watched elements at equal indices. Not covered: <=>, cross-capacity operand pairs, erase_if, reverse-iterator accessors.', '5.16'),
